@@ -94,7 +94,8 @@ class character_iterator(slots_getstate_setstate):
                     while True:
                         if self.i_char == len(self.input_string):
                             return 0
-                        if not self.input_string[self.i_char].isspace():
+                        c = self.input_string[self.i_char]
+                        if not c.isspace() or c == "\n":
                             break
                         self.i_char += 1
                     for i_followup, followup in enumerate(followups):
